@@ -30,7 +30,20 @@ RULE = ("(supporting tests) corpus from one PRNG: the repository's module sample
         "entries share one long name. Arithmetic cores: uleb128/sleb128, var_uint/var_sint, coded/table indexes and lnk length_data are called through the hook "
         "on encoded boundary values and random bytes and compared with the Coq models; pe overlay and elf entry-point conversion are recomputed from the "
         "modules' outputs for every (mutated) sample. PE outputs: every (rva, offset) pair visible (entry point, exports, resources) recomputed by "
-        "Modules/Rva.v on the section table of the same file. Non-trivial: distinct (label, output size).")
+        "Modules/Rva.v on the section table of the same file. Boundary sweeps (one invocation per mutation, ~100 us each): (a) EVERY repository sample "
+        "as it is (no size cap, no sub-sampling) must return within 300 ms + 3 us/byte (one retry); (b) structured: independent minimal readers "
+        "(harness/src/c11/fields.rs) locate the length / size / count / offset fields and the table entries that index other tables of PE (headers, "
+        "section table, export directory + address / name-pointer / name-ORDINAL tables, import and delay-import descriptors and thunks, resource tree, "
+        "debug, certificate, TLS, CLI header, metadata root, stream headers, #~ row counts and rows, heaps), ELF (ehdr, phdrs, shdrs, symbols, dynamic, "
+        "notes, versions; both classes and byte orders), Mach-O (fat, header, every load command, sections, nlist, indirect symbols, dyld info, export "
+        "trie, chained fixups, code-signature blobs), LNK (header, every ItemID size of the IDList, LinkInfo, VolumeID, CNRL, StringData counts, "
+        "ExtraData blocks), DEX (header, id tables, map list, string / class data), CRX, ZIP (EOCD, central and local headers, extra fields, zip64), "
+        "OLE/CF for olecf / vba / msi (header, DIFAT, FAT, directory entries, mini FAT, stream heads); per directory the smallest samples are "
+        "taken until every kind of field is present in one carrier; every field is set to 0,1,2,3,4,7,8, v-1, v+1, 0x7f,0x80,0xff,0x100,0x7fff,0x8000,"
+        "0xffff,0x10000,0x7fffffff,0x80000000,0xffffffff, max, max-1, len-1, len, len+1, remaining-1, remaining, remaining+1 and c-1, c, c+1 for "
+        "every count c found in the same file (NumberOfFunctions, NumberOfNames, section / symbol / row counts ...); (c) exhaustive: every offset "
+        "of every sample of at most 2100 bytes (and a synthetic ZIP) as u16 and u32 with a reduced value set, sampled down to the budget in the "
+        "quick tier. A failing mutation is kept as a case with the field name, offset, width and value. Non-trivial: distinct (label, output size).")
 
 SAMPLES = "c11-samples"
 
@@ -97,6 +110,8 @@ def classify(case):
         return f"C11:{case.get('class')}:{case.get('fail') or '?'}"
     if case.get("kind") == "count":
         return f"C11:{case.get('class')}:more-exports-than-trie-nodes"
+    if case.get("kind") == "sweep":
+        return f"C11:sweep:{case.get('mode')}:{case.get('format')}"
     if case.get("kind") == "core":
         return f"C11:core:{case.get('core')}"
     return "C11:" + str(case.get("kind"))
@@ -107,9 +122,11 @@ def run_k(run, tier, seed, drv):
     if err:
         return {"broken": [("harness:c11", err)], "violations": []}
     if tier == "quick":
-        args = ["--seed", seed, "--samples", sdir, "--max-samples", 48, "--trunc", 10, "--fields", 12, "--bomb", "40,80,128,256,512,800,1200", "--names", "200:2000,6000:150000", "--cores", 1600, "--limit-ms", 20000]
+        args = ["--seed", seed, "--samples", sdir, "--max-samples", 48, "--trunc", 10, "--fields", 12, "--bomb", "40,80,128,256,512,800,1200", "--names", "200:2000,6000:150000", "--cores", 1600, "--limit-ms", 20000,
+                "--sweep-budget", 150000, "--sweep-per-dir", 16, "--sweep-small", 2100]
     else:
-        args = ["--seed", seed, "--samples", sdir, "--max-samples", 400, "--max-size", 4000000, "--trunc", 64, "--fields", 64, "--bomb", "40,80,101,102,128,160,256,320,512,800,1200,4000", "--names", "200:2000,3000:80000,6000:150000,12000:300000", "--cores", 40000, "--limit-ms", 30000]
+        args = ["--seed", seed, "--samples", sdir, "--max-samples", 400, "--max-size", 4000000, "--trunc", 64, "--fields", 64, "--bomb", "40,80,101,102,128,160,256,320,512,800,1200,4000", "--names", "200:2000,3000:80000,6000:150000,12000:300000", "--cores", 40000, "--limit-ms", 30000,
+                "--sweep-budget", 100000000, "--sweep-per-dir", 64, "--sweep-small", 6000]
     info = standard_k(run, drv, "C11", "c11", args, "K_C11_rva_to_offset", classify, max_report=50)
     info["rule"] = RULE
     return info
